@@ -146,8 +146,8 @@ def h03_redis_death(S):
     die_after = S.pick("dies_after_round_trips", 8)
     origin = S.pick("origin", 2)          # 0 waiting, 1 due delayed
     t_take = S.int("take_at_us", Y2000, Y2050)
-    tau = S.int("execution_timeout_us", SEC, 3600 * SEC)
-    elapsed = S.int("new_process_connects_after_us", 0, 2 * 3600 * SEC)
+    tau = S.int("execution_timeout_us", SEC, 3 * 86400 * SEC)
+    elapsed = S.int("new_process_connects_after_us", 0, 4 * 86400 * SEC)
     clock = PinnedClock(t_take)
     out = {}
     S.tag("dies_after", die_after)
@@ -295,7 +295,7 @@ HARNESSES = [
 HARNESSES += [
     Harness(name="H03-redis-death", scenario=h03_redis_death, workers=16, budget_s=900,
             bounds={"process death": "after 0..7 Redis round trips of consume_or_none() (before the fetch, between fetch and take, between take and detail reads, after)",
-                    "take instant": "any µs in 2000..2050", "execution timeout": "any µs in [1 s, 1 h]", "successor connects after": "any µs in [0, 2 h]",
+                    "take instant": "any µs in 2000..2050", "execution timeout": "any µs in [1 s, 3 d]", "successor connects after": "any µs in [0, 4 d]",
                     "origin": "waiting or due-delayed message"},
             functions=["connections/redis/consumer.py:_RedisConsumer.consume_or_none", "connections/redis/message_broker.py:RedisMessageBroker.maintenance",
                        "connections/redis/message_broker.py:RedisMessageBroker.connect"],
